@@ -1009,6 +1009,20 @@ class Config:  # pylint: disable=too-many-instance-attributes
         else:
             self.__keyfile = KeyFile(key_filename)
 
+    def _inherit_key_files(self, previous: "Config") -> None:
+        """
+        Take over the key files that were explicitly named for a configuration this one replaces,
+        and for the sub-configurations below it.
+
+        :param previous: the configuration being replaced
+        """
+        if previous.__keyfile is not None:
+            self._key_filename = previous.__keyfile.filename
+        for key, value in previous._data.items():
+            mine = self._data.get(key)
+            if isinstance(value, Config) and isinstance(mine, Config):
+                mine._inherit_key_files(value)
+
     @property
     def _keyfile(self) -> KeyFile:
         """
@@ -1091,6 +1105,10 @@ class Config:  # pylint: disable=too-many-instance-attributes
             # both Schema and ConfigTypeField implement __call__, which will return a Config object
             cfg = field(self)
             cfg._key = key
+            previous = self._data.get(key)
+            if isinstance(previous, Config):
+                # key files named for the sub-configuration that is being replaced stay in force
+                cfg._inherit_key_files(previous)
             cfg.load_tree(value)  # load_tree will raise a ValidationError on error
             value = cfg
         else:
